@@ -75,7 +75,13 @@ func (e *Exec) stubResult(sig *types.Signature, tag string) Value {
 }
 
 func (e *Exec) packageStub(fn *ssa.Function, args []Value, cc *ssa.CallCommon) (Value, bool) {
-	pp := fnPkgPath(fn)
+	var pp string
+	if v, ok := e.P.pkgPaths.Load(fn); ok {
+		pp = v.(string)
+	} else {
+		pp = fnPkgPath(fn)
+		e.P.pkgPaths.Store(fn, pp)
+	}
 	for _, np := range noopPackages {
 		if pp == np {
 			e.noteStub(pp + ".* (no-op)")
